@@ -53,6 +53,9 @@ class C18(Hist1Prop):
     FIELDS = {"bins", "freq", "err2", "under", "over", "inner", "total", "dtype", "keep"}
 
     def gen_case(self, rng, k, tier):
+        if k % 5 == 3:
+            from . import nd_parts
+            return nd_parts.c18_gen(rng)
         # a quarter of the histories start from contents / squared errors near the limits of the narrow types, so that
         # refused (and wrongly accepted) dtype changes are part of the histories too
         focus = rng.random() < 0.25
@@ -75,6 +78,10 @@ class C18(Hist1Prop):
             yield c
 
     def run_impl(self, case):
+        if case.get("kind") == "histn":
+            from .. import implnd
+            outs, log = implnd.run(case)
+            return {"outs": outs, "log": log}
         from .. import impl1
         # merge_frac is not in the generic language
         s = impl1.Store()
@@ -93,6 +100,9 @@ class C18(Hist1Prop):
         return {"outs": outs, "log": log}
 
     def oracle(self, case, io):
+        if case.get("kind") == "histn":
+            from . import nd_parts
+            return nd_parts.c18_oracle(case, io)
         outs, ops = io["outs"], case["ops"]
         fails = []
         for k, op in enumerate(ops):
